@@ -21,7 +21,7 @@ import (
 //
 // If passwd as empty: return empty passwd (unable to login)
 func GenPasswd(passwd []byte) (passwdHash *ptttype.Passwd_t, err error) {
-	if passwd[0] == 0 {
+	if len(passwd) == 0 || passwd[0] == 0 {
 		return &ptttype.Passwd_t{}, nil
 	}
 
